@@ -1,11 +1,52 @@
 package checks
 
 import (
+	"fmt"
+
+	"github.com/ostafen/clover/v2/query"
 	"verif/drv"
 	"verif/eng"
 	"verif/ev"
 	"verif/m"
 )
+
+// sortOptionAliasing: a query built with Sort(opts...) must keep ordering by the options it was given, whatever the
+// caller does with its own slice afterwards (re-using it for the next query is the natural way to page or to build
+// the descending twin).
+func sortOptionAliasing(run *ev.Run) {
+	in := drv.MustOpen(drv.BBolt)
+	defer in.Close()
+	in.DB.CreateCollection("a")
+	docs := eng.DefaultDataset()
+	for _, d := range docs {
+		in.DB.Insert("a", drv.Doc(d))
+	}
+	for _, indexed := range []bool{false, true} {
+		if indexed {
+			in.DB.CreateIndex("a", "x")
+		}
+		for _, first := range []query.SortOption{{Field: "x", Direction: 1}, {Field: "x", Direction: 0}, {Field: "y", Direction: -5}} {
+			opts := []query.SortOption{first, {Field: "_id", Direction: 1}}
+			want := []query.SortOption{opts[0], opts[1]}
+			q := query.NewQuery("a").Sort(opts...)
+			opts[0].Direction, opts[0].Field, opts[1].Direction = -opts[0].Direction-1, "_id", -1 // the caller re-uses its slice
+			got, err1 := in.DB.FindAll(q)
+			ref, err2 := in.DB.FindAll(query.NewQuery("a").Sort(want[0], want[1]))
+			run.Add("evaluations", 2)
+			if err1 != nil || err2 != nil || len(got) != len(ref) {
+				run.Violation("sort-alias-error", fmt.Sprintf("sorted query failed: %v %v", err1, err2), nil)
+				continue
+			}
+			for i := range got {
+				if got[i].ObjectId() != ref[i].ObjectId() {
+					run.Violation(fmt.Sprintf("sort-alias|indexed=%v", indexed), fmt.Sprintf("a query built with Sort(%v...) changed its order after the caller modified its own option slice (position %d: %s, expected %s)", want, i, got[i].ObjectId(), ref[i].ObjectId()),
+						map[string]interface{}{"engine": "sort-aliasing", "options": fmt.Sprint(want), "indexed": indexed})
+					break
+				}
+			}
+		}
+	}
+}
 
 func init() {
 	register("C19", "exploration", func(run *ev.Run, tier string) string {
@@ -68,6 +109,7 @@ func init() {
 		}
 		cfg := &eng.QSConfig{Name: "default", Backends: backends, Docs: eng.DefaultDataset(), Twins: twins, Crits: crits, Shapes: shapes, Reads: true, Own: own("find", "derived")}
 		eng.QuerySweep(cfg, run)
+		sortOptionAliasing(run)
 		run.Set("distinct_nontrivial", run.DistinctCount("results"))
 		return "every sort option list (each of x, y, _id, n.a with directions -7,-1,0,1,5; every ordered pair of distinct fields with four direction pairs; Sort() without options; no sort) x skip,limit in {-1,0,1,2,size-1,size,size+1}^2 (plus unset) x 5 criteria (none, ranges on the sort field, Or/NotExists) on twins without index and with indexes on x, y, x+y, n.a, over a 13-document collection with duplicate, missing, nil and mixed-type keys; oracle: the returned sort-key tuples equal the window [n,n+m) of the reference-sorted selection (absent = nil); unsorted: count min(m,max(0,total-n)), distinct, all matching; Count of the same query equals the number of documents returned; distinct = distinct result signatures"
 	})
